@@ -2,8 +2,8 @@
 # usage: try_mutant.sh <seeded name> <prop> [<prop> ...] : applies the seeded patch to /repo, runs the quick checks, reverts.
 m=$1; shift
 cd /repo && git diff --quiet || { echo "repo dirty"; exit 9; }
-if ! git apply --3way /verif/seeded/$m/patch.diff 2>/tmp/apply.err && ! git apply /verif/seeded/$m/patch.diff 2>>/tmp/apply.err; then echo "PATCH-DOES-NOT-APPLY $m"; cat /tmp/apply.err | tail -3; git checkout -- . ; git reset -q; exit 8; fi
-git reset -q
+pf=/verif/seeded/$m/patch.diff; [ -f /verif/seeded/$m/patch.rebased.diff ] && pf=/verif/seeded/$m/patch.rebased.diff
+if git apply --check $pf 2>/dev/null; then git apply $pf; elif git apply --3way $pf 2>/tmp/apply.err; then git reset -q; else echo "PATCH-DOES-NOT-APPLY $m"; tail -2 /tmp/apply.err; git reset -q --hard HEAD; exit 8; fi
 cd /verif
 for p in "$@"; do
   out=$(python3-vt -m pyvc check $p 2>&1); rc=$?
